@@ -12,9 +12,43 @@ from concurrent.futures import ThreadPoolExecutor
 VERIF = os.path.dirname(os.path.dirname(os.path.abspath(__file__)))
 REPO = os.environ.get("NEPCHECK_REPO", "/repo")
 
+def apply_patch(patch_text, read):
+    """apply a unified diff in memory; read(rel) gives the current content. Returns {rel: new content} or raises."""
+    out = {}
+    cur, hunks = None, {}
+    for line in patch_text.splitlines():
+        if line.startswith("+++ b/"):
+            cur = line[6:].strip(); hunks[cur] = []
+        elif line.startswith("@@") and cur:
+            hunks[cur].append([])
+        elif cur and hunks[cur] and (line[:1] in " +-" or line == ""):
+            if line.startswith("--- ") or line.startswith("diff "):
+                continue
+            hunks[cur][-1].append(line if line else " ")
+        elif line.startswith("diff "):
+            cur = None
+    for rel, hs in hunks.items():
+        src = read(rel).split("\n")
+        for h in hs:
+            old = [l[1:] for l in h if l[0] in " -"]
+            new = [l[1:] for l in h if l[0] in " +"]
+            pos = [i for i in range(len(src) - len(old) + 1) if src[i:i + len(old)] == old]
+            if len(pos) != 1:
+                raise ValueError("hunk matches %d places in %s" % (len(pos), rel))
+            src[pos[0]:pos[0] + len(old)] = new
+        out[rel] = "\n".join(src)
+    return out
+
+
 def run_one(pid, m):
     edits = [m] + m.get("also", [])
     files = {}
+    if "patch" in m:
+        try:
+            files = apply_patch(open(os.path.join(VERIF, m["patch"])).read(), lambda rel: open(os.path.join(REPO, rel)).read())
+        except Exception as ex:
+            return (pid, m["name"], "STALE", str(ex))
+        edits = []
     for e in edits:
         if e["file"] not in files:
             files[e["file"]] = open(os.path.join(REPO, e["file"])).read()
@@ -59,6 +93,13 @@ def main():
             continue
         for m in json.load(open(fn)):
             jobs.append((pid, m))
+    # the independently seeded changes (seeded/<ID>-<n>/patch.diff) are permanent members of the mutant set
+    for d in sorted(glob.glob(os.path.join(VERIF, "seeded", "C*-*"))):
+        pid = os.path.basename(d).split("-")[0]
+        if a.p and pid != a.p:
+            continue
+        if os.path.exists(os.path.join(d, "patch.diff")):
+            jobs.append((pid, {"name": "seeded " + os.path.basename(d), "patch": os.path.relpath(os.path.join(d, "patch.diff"), VERIF), "expect": pid + "."}))
     bad = 0
     with ThreadPoolExecutor(a.j) as ex:
         for pid, name, st, info in ex.map(lambda j: run_one(*j), jobs):
